@@ -350,6 +350,31 @@ Enabled(W, act) ==
     [] OTHER             -> FALSE
 
 (***************************************************************************)
+(* Ownership: a chromosome owns its test cases.  The inputs of the cached  *)
+(* values of a suite are its member list and the content versions of its   *)
+(* members; of a test held by the caller its content version.  A call made *)
+(* on chromosome x (for cross_over: the receiver, the other parent is only *)
+(* read) never changes the inputs of any other chromosome.                 *)
+(***************************************************************************)
+OwnedP(W) ==
+  \A s \in SIdsOf(W) : W.s[s].alive =>
+     /\ \A i \in DOMAIN W.s[s].mem : LiveT(W, W.s[s].mem[i]) /\ W.t[W.s[s].mem[i]].owner = s
+     /\ \A i, j \in DOMAIN W.s[s].mem : i # j => W.s[s].mem[i] # W.s[s].mem[j]
+     /\ \A s2 \in SIdsOf(W) : (s2 # s /\ W.s[s2].alive) => SeqToSet(W.s[s].mem) \cap SeqToSet(W.s[s2].mem) = {}
+
+SuiteInputs(W, s) == [i \in DOMAIN W.s[s].mem |-> IF W.s[s].mem[i] \in TIdsOf(W) THEN W.t[W.s[s].mem[i]].c ELSE None]
+SuiteCalls == {"sq", "saddf", "saddc", "sinv", "sadd", "sadds", "sdel", "sset", "sxo", "smut"}
+TestEdits  == {"tmut", "txo"}
+IsolatedP(W0, W1, act) ==
+  /\ \A s \in SIdsOf(W0) :
+        (W0.s[s].alive /\ W1.s[s].alive /\ ~(act.op \in SuiteCalls /\ act.a = s))
+           => SuiteInputs(W1, s) = SuiteInputs(W0, s)
+  /\ \A a \in TIdsOf(W0) :
+        (W0.t[a].alive /\ W1.t[a].alive /\ W0.t[a].owner = 0 /\ W1.t[a].owner = 0
+         /\ ~(act.op \in TestEdits /\ act.a = a))
+           => W1.t[a].c = W0.t[a].c
+
+(***************************************************************************)
 (* Structural sanity of a world                                            *)
 (***************************************************************************)
 WorldOK(W) ==
